@@ -95,7 +95,22 @@ func genTreeText(rt *rapid.T, prefix string, minTips, maxTips int, comments bool
 			parts = append(parts, subs[i])
 			subs = append(subs[:i], subs[i+1:]...)
 		}
-		subs = append(subs, deco("("+strings.Join(parts, ",")+")", true))
+		grp := "(" + strings.Join(parts, ",") + ")"
+		switch rapid.IntRange(0, 15).Draw(rt, "special") {
+		case 0:
+			// an inner node carrying the name of a tip (legal Newick)
+			grp = deco(grp+prefix+strconv.Itoa(rapid.IntRange(0, n-1).Draw(rt, "tipname")), false)
+		case 1:
+			// a single-child inner node above the group
+			grp = "(" + deco(grp, true) + ")" + deco("", false)
+		case 2:
+			// a single-child inner node above one tip of the group
+			parts[0] = "(" + parts[0] + ")" + deco("", false)
+			grp = deco("("+strings.Join(parts, ",")+")", true)
+		default:
+			grp = deco(grp, true)
+		}
+		subs = append(subs, grp)
 	}
 	root := "(" + strings.Join(subs, ",") + ")"
 	if comments && rapid.Bool().Draw(rt, "rootcomment") {
@@ -257,7 +272,7 @@ func applyOp(st *histState, op HOp) (desc string, err error) {
 		if hasSingleInner(t) || len(tips) < 4 {
 			return opSkip, nil
 		}
-		rm := pickSubset(r, tips, 1, len(tips)-3)
+		rm := pickSubset(r, tips, 1, len(tips)-2) // may leave two tips
 		if op.B%4 == 0 {
 			rm = append(rm, "ABSENT_NAME")
 		}
